@@ -1,22 +1,2 @@
-(* GENERATED by tools/lib/bvlib/src2v.py from /repo/src/networking/assets/mod.rs — do not edit *)
-From Coq Require Import List NArith String.
-From BS Require Import Http.Route.
-Import ListNotations.
-Local Open Scope N_scope.
-
-(* router chain of `respond`, in source order: (substring tested, prefix stripped, class) *)
-Definition src_router : list (list N * list N * class) :=
-  [([47; 105; 109; 97; 103; 101; 47], [47; 105; 109; 97; 103; 101; 47], CImage);
-   ([47; 109; 101; 115; 104; 47], [47; 109; 101; 115; 104; 47], CMesh);
-   ([47; 97; 117; 100; 105; 111; 47], [47; 97; 117; 100; 105; 111; 47], CAudio)].
-(* per class arm: (class, cache read = cache served 1/0, status when poisoned, status when missing) *)
-Definition src_arms : list (class * N * N * N * N) :=
-  [(CMesh, 1, 449, 404, 1); (CImage, 1, 449, 404, 1); (CAudio, 1, 449, 404, 1)].
-(* serve_<class>: (class, writes its own cache 1/0, first bytes win 1/0, url segment) *)
-Definition src_serve : list (class * N * N * list N) :=
-  [(CMesh, 1, 0, [47; 109; 101; 115; 104; 47]);
-   (CImage, 1, 0, [47; 105; 109; 97; 103; 101; 47]);
-   (CAudio, 1, 0, [47; 97; 117; 100; 105; 111; 47])].
-(* request(): 1 = download skipped iff the *mesh* cache holds the id, 2 = no guard, 0 = other *)
-Definition src_request_guard : N := 2.
-Definition src_base_url_formats : list (list N) := [[104; 116; 116; 112; 58; 47; 47; 91; 123; 125; 93; 58; 123; 125]; [104; 116; 116; 112; 58; 47; 47; 123; 125; 58; 123; 125]].
+(* translator failed: respond: match arms not in the expected shape (0) *)
+Definition translator_failed_Routes : False := I.
